@@ -386,16 +386,50 @@ func (m *MW) StepInjectedFailure() {
 	W := m.W
 	mint := "A"
 	ks := W.ActiveKeyset(mint)
-	kind := m.T.Choose("inj.kind", 6)
-	pos := 1 + m.T.Choose("inj.pos", 6)
+	// 0..6: storage error inside swap / mint quote / mint / checkstate / melt / melt quote / restore;
+	// 7..9: Lightning error inside mint quote / mint / melt
+	kind := m.T.Choose("inj.kind", 10)
+	pos := 1 + m.T.Choose("inj.pos", 12)
 	m.rc.Op(fmt.Sprintf("injected-failure kind=%d pos=%d", kind, pos))
 	var r *Resp
 	var ins []*HProof
 	obsFrom := len(W.Net.Obs)
 	plan := &FaultPlan{Node: mint, Kind: "db_error", SeamKind: "db", Pos: pos}
-	lnErr := kind >= 4
+	lnErr := kind >= 7
+	op := kind
 	if lnErr {
 		plan = nil
+		op = []int{1, 2, 4}[kind-7]
+	}
+	// preparation of the request that will meet the failure happens in a clean episode
+	var mq *MintQuote
+	var lq *MeltQuote
+	m.rc.Quietly(func() {
+		a := m.Atk
+		switch op {
+		case 0:
+			ins = m.pickProofs(mint, 1)
+			if fee := m.feeFor(mint, ins); ins == nil || SumH(ins) <= fee {
+				ins = nil
+			}
+		case 2:
+			mq, _ = a.ReqMintQuote(mint, 9, false)
+			if mq != nil {
+				W.LN.PayExternal(mq.Hash)
+			}
+		case 4:
+			inv := W.LN.NewExternalInvoice(11000)
+			W.LN.Scripts[inv.Hash] = &LNScript{Pay: "succeeded"}
+			if lnErr {
+				W.LN.Scripts[inv.Hash] = &LNScript{Pay: "error", Status: []string{"error"}}
+			}
+			lq, _ = a.ReqMeltQuote(mint, inv.Bolt11, 0)
+			if lq != nil {
+				ins = m.TakeFor(mint, lq.Amount+lq.Reserve)
+			}
+		}
+	})
+	if lnErr {
 		W.LN.Cfg.InvoiceErrPct = 100
 		W.LN.Cfg.AmbiguousPct = 100
 	}
@@ -406,24 +440,29 @@ func (m *MW) StepInjectedFailure() {
 	}
 	m.rc.S.Run1(m.name("inj"), W.Ext, func() {
 		a := m.Atk
-		switch kind % 4 {
+		switch op {
 		case 0:
-			ins = m.pickProofs(mint, 1)
-			fee := m.feeFor(mint, ins)
-			if ins == nil || SumH(ins) <= fee {
-				return
+			if ins != nil {
+				_, r = a.Swap(mint, ins, W.NewOutputs(Split(SumH(ins)-m.feeFor(mint, ins)), ks.ID))
 			}
-			_, r = a.Swap(mint, ins, W.NewOutputs(Split(SumH(ins)-fee), ks.ID))
 		case 1:
 			_, r = a.ReqMintQuote(mint, 9, false)
 		case 2:
-			q, _ := a.ReqMintQuote(mint, 9, false)
-			if q != nil {
-				W.LN.PayExternal(q.Hash)
-				_, r = a.Mint(mint, q, W.NewOutputs(Split(9), ks.ID), "")
+			if mq != nil {
+				_, r = a.Mint(mint, mq, W.NewOutputs(Split(9), ks.ID), "")
 			}
 		case 3:
 			r = a.CheckState(mint, []string{hY("whatever")})
+		case 4:
+			if lq != nil && ins != nil {
+				r = a.Melt(mint, lq.ID, ins)
+				m.rc.S.Probe("c20_injected_into_melt")
+			}
+		case 5:
+			inv := W.LN.NewExternalInvoice(12000)
+			_, r = a.ReqMeltQuote(mint, inv.Bolt11, 0)
+		case 6:
+			r = a.Restore(mint, W.NewOutputs([]uint64{1, 2}, ks.ID))
 		}
 	})
 	W.LN.Cfg.InvoiceErrPct = 0
